@@ -24,7 +24,7 @@ type CfgOpt struct {
 	Kind string   `json:"kind"` // file | add | set
 	Lk   string   `json:"lk"`   // file | raw | args
 	Keys []string `json:"keys"`
-	Val  int      `json:"val"` // marker value this source supplies for each of its keys (markers may repeat)
+	Val  int      `json:"val"`  // marker value this source supplies for each of its keys (markers may repeat)
 	Join bool     `json:"join"` // a further loader of the same variadic Set/AddConfigLoader call as the option before
 }
 type CfgScenario struct {
